@@ -303,4 +303,15 @@ def parameter_sets(draw, min_size=1, max_size=7, constructs=("list", "dict", "re
         else:
             p = draw(plain_decl(lab, k))
         params.append(p)
+    if draw(st.integers(0, 5)) == 0:
+        # bounds written as plain integers (as `min: 10` in a yml file) on EVERY free parameter
+        for p in params:
+            if p.get("expr") is not None or not p.get("vary", True):
+                continue
+            v = draw(st.floats(2.0, 500.0))
+            p["value"] = v
+            p["min"] = int(draw(st.integers(1, max(1, int(math.floor(v)) - 1)))) if math.floor(v) > 1 else 1
+            p["max"] = int(math.ceil(v)) + int(draw(st.integers(1, 50)))
+            if not p["min"] < v:
+                p["min"] = 1
     return {"construct": construct, "params": params}
